@@ -41,7 +41,8 @@ def body_python_gate(flag_kind: int, flag_int: int, form: int) -> bool:
     ctx = simpleTALES.Context(allowPythonPath=flag)
     ctx.log = T.NullLog()
     ctx.addGlobal("a", "x")
-    forms = ["python: 1+1", "a/zz | python: 1+1", "string:${python: 1+1}", "not: python: 1+1", "exists: zz | python: 1+1", "nocall: zz | python: 1+1", "path: zz | python: 1+1", "python:__import__('os').getcwd()"]
+    forms = ["python: 1+1", "a/zz | python: 1+1", "string:${python: 1+1}", "not: python: 1+1", "exists: zz | python: 1+1", "nocall: zz | python: 1+1", "path: zz | python: 1+1", "python:__import__('os').getcwd()",
+             " python: 1+1", "string:${ python: 1+1}", "  python:1", "not:  python: 1+1", "zz |  python: 1+1 "]
     saved = simpleTALES.__dict__.get("eval", MISSING)
     simpleTALES.eval = canary
     hx.silence_logging()
@@ -398,9 +399,9 @@ def obligations(tier, seed):
                       timeout=400 if tier == "quick" else 1800,
                       desc="template %s (multi-statement define mixing global and local): after expansion the caller's context holds exactly what it held before plus the explicit globals" % src,
                       bounds="value kinds 0..%d symbolic, strings |s| <= 1 over {a <}" % KK, functions=["simpletal.simpleTAL.TemplateInterpreter.cmdDefine/cmdEndTagEndScope", "simpleTALES.Context.pushLocals/popLocals"]))
-    obs.append(Ob(id="C18.2-python-gate", body="harness.C18:body_python_gate", sig="flag_kind: int, flag_int: int, form: int", pre=["0 <= flag_kind <= 5", "-3 <= flag_int <= 3", "0 <= form <= 7"], timeout=200,
+    obs.append(Ob(id="C18.2-python-gate", body="harness.C18:body_python_gate", sig="flag_kind: int, flag_int: int, form: int", pre=["0 <= flag_kind <= 5", "-3 <= flag_int <= 3", "0 <= form <= 12"], timeout=200,
                   desc="python: expressions reach eval iff allowPythonPath is truthy, through all routing forms (direct, alternation, string interpolation, not/exists/nocall/path prefixes)",
-                  bounds="flag in {None, False, True, 0, -3..3, ''} x 8 routing forms (symbolic)", functions=["simpletal.simpleTALES.Context.evaluatePython/evaluate"]))
+                  bounds="flag in {None, False, True, 0, -3..3, ''} x 13 routing forms incl. leading/trailing blanks (symbolic)", functions=["simpletal.simpleTALES.Context.evaluatePython/evaluate"]))
     obs.append(Ob(id="C18.2b-eval-sites", body="harness.C18:fn_eval_sites", kind="fn", engine="scan", twin=False, timeout=120,
                   desc="the only dynamic-evaluation call site in simpletal is evaluatePython behind the gate; TALFileHandler passes allowpythonpath through", bounds="all files under simpletal/"))
     for tk, tg in enumerate(TAGS):
